@@ -27,25 +27,25 @@ CHECKS["C11"] = dict(
 CHECKS["C08"] = dict(
    category="exploration",
    technique="bounded-exhaustive enumeration of expression templates x parenthesisation, literal classes, declaration forms and corpus files x line widths; oracle: re-parse and structural AST equality",
-   text="All template-filled expressions up to depth 2 (quick) / 3 (thorough) over 30 constructs (every binary operator, unary, postfix, if/if-let/match/lambda/block/tuple) with every child both bare and parenthesised, 34 literal spellings x 8 operand contexts, 14 declaration forms, and every .sam file of tests/, std/ and /verif/corpus at widths {1..200}: whenever the input parses, format -> re-parse must succeed and give the same tree (independent structural dump).",
-   note="Trusted: synt::dump_module covers every AST field except locations/comments; one non-atom child per template level.",
+   text="All template-filled expressions up to depth 2 (quick) / 3 (thorough) over 47 constructs (every binary operator, unary, postfix, if/if-let/match incl. or/tuple/struct patterns, one lambda and tuple template per branch of the parser's `(` disambiguation, let with tuple/struct/variant/annotated patterns, block) with every child both bare and parenthesised, every fully parenthesised binary operator tree with <=3 (quick) / <=4 (thorough) operators over all 14 operators and one more operator within each precedence level, 34 literal spellings x 8 operand contexts, 14 declaration forms, and every .sam file of tests/, std/ and /verif/corpus at widths {1..200}: whenever the input parses, format -> re-parse must succeed and give the same tree (independent structural dump).",
+   note="Trusted: synt::dump_module covers every AST field except locations/comments; one non-atom child per template level (operator trees are complete). Known finding C08-K1 is decided by an exact criterion: trees identical modulo flattening chains of one associative operator, any other difference takes precedence.",
    design_ref="DESIGN.md §5 C08")
 CHECKS["C09"] = dict(
    category="exploration",
    technique="exhaustive enumeration of comment placements: one tagged line/block/doc comment in every token gap (thorough: also pairs) of every corpus file and expression template; oracle: idempotence + comment multiset/order via an independent tokenizer",
-   text="For every base text (22 smallest corpus files quick / all of tests/, std/, corpus/c11 thorough, plus every expression template bare and parenthesised) and every inter-token gap incl. file start/end, a uniquely tagged comment of each of the 3 kinds is inserted; every variant that parses is formatted once and twice: fmt(fmt(x)) == fmt(x), the output's comment multiset equals the input's, and (outside the import region) so does the order. Failures are keyed by gap kind (comment kind @ enclosing AST node : token before|after).",
+   text="For every base text (22 smallest corpus files quick / all of tests/, std/, corpus/c11 thorough, plus every expression template bare and parenthesised, plus two inline texts with repeated / unsorted imports of the same module) and every inter-token gap incl. file start/end, a uniquely tagged comment of each of the 3 kinds is inserted; every variant that parses is formatted once and twice: fmt(fmt(x)) == fmt(x), the output's comment multiset equals the input's, and (outside the import region) so does the order. Failures are keyed by gap kind (comment kind @ enclosing AST node : token before|after).",
    note="Trusted: synt::tokenize finds comments independently of the repo's lexer; width fixed at 100. Many gap kinds are genuinely broken on the pinned tree (known findings C09-K1..K3), so only regressions in the currently-correct gap kinds are detected.",
    design_ref="DESIGN.md §5 C09")
 CHECKS["C05"] = dict(
    category="exploration",
    technique="bounded-exhaustive enumeration of token strings, single-edit/truncation neighbourhoods of the corpus, module pairs and nesting ladders (forked workers); oracle: catch_unwind, exit status, watchdog, token-bag comparison",
-   text="All token strings of length <=4 (quick) / <=5 (thorough) over a 30-class alphabet (+18 rare/hostile classes up to length 3/4) in 3 contexts; delete / duplicate / replace-by-class at every token, truncation at every byte and hostile-character insertion at every token start of the 20 smallest (quick) / all (thorough) corpus files; all 256 ordered pairs of two-module snippets; 14 nesting ladders up to depth 512 each rung in a forked process with the CLI's stack. Every input goes through parse, check, both diagnostic renderings, format (when no syntax error) and compile_sources: no panic, no process death, no hang (20 s), and no identifier/literal token lost or invented without a syntax error.",
+   text="All token strings of length <=4 (quick) / <=5 (thorough) over a 30-class alphabet (+18 rare/hostile classes up to length 3/4) in 3 contexts; delete / duplicate / replace-by-class at every token, truncation at every byte and hostile-character insertion at every token start of the 20 smallest (quick) / all (thorough) corpus files; all 256 ordered pairs of two-module snippets; 14 nesting ladders up to depth 512 each rung in a forked process with the CLI's stack; 27 width ladders (one construct - tuple in each of the parser's tuple/lambda branches, parameters, fields, variants, payloads, type parameters/arguments, or-alternatives, imports, supertypes, arguments, statements, arms, captures, members, classes - repeated n times side by side for n in {0,1,2,15,16,17,18,33} quick / 0..40,64,100,255..257,1000 thorough). Every input goes through parse, check, both diagnostic renderings, format (when no syntax error) and compile_sources: no panic, no process death, no hang (20 s), and no identifier/literal token lost or invented without a syntax error.",
    note="'All UTF-8 strings' is not enumerable; the claim is over the listed finite neighbourhoods. 'Reasonably sized' is fixed at nesting depth <= 512.",
    design_ref="DESIGN.md §5 C05")
 CHECKS["C14"] = dict(
    category="exploration",
    technique="exhaustive enumeration of single-gap and uniform layout variants of the corpus; oracle: independent tokenizer + containment/ordering/exact-name invariants over a generic tree view of the AST, diagnostics and query results",
-   text="For every base text (25 smallest corpus files quick / all thorough, plus every expression template) the original layout, 7 uniform fillers, one long line and every inter-token gap replaced by each of 7 fillers (space, LF, CRLF, tab, mixed, multi-line block comment, line comment): every AST node range has start<=end, lies inside the document, encloses its parts, siblings are disjoint and ordered, every identifier-bearing node's range is exactly the token spelling that name (per an independent tokenizer); every diagnostic location, folding range, definition/reference location and quick-fix edit range lies inside the document.",
+   text="For every base text (25 smallest corpus files quick / all thorough, plus every expression template, incl. one per branch of the parser's lambda/tuple disambiguation) the original layout, 7 uniform fillers, one long line and every inter-token gap replaced by each of 7 fillers (space, LF, CRLF, tab, mixed, multi-line block comment, line comment): every AST node range has start<=end, lies inside the document, encloses its parts, siblings are disjoint and ordered, every identifier-bearing node's range is exactly the token spelling that name (per an independent tokenizer); every diagnostic location, folding range, definition/reference location and quick-fix edit range lies inside the document.",
    note="ASCII layouts only (column unit for non-ASCII text is not fixed by the property). The parser's deliberate choice to start a class's type-definition range at its type parameters is treated as containment, not as sibling overlap.",
    design_ref="DESIGN.md §5 C14")
 CHECKS["C07"] = dict(
@@ -56,14 +56,14 @@ CHECKS["C07"] = dict(
    design_ref="DESIGN.md §5 C07")
 CHECKS["C06"] = dict(
    category="fault_enumeration",
-   technique="exhaustive enumeration of single-fault mutants: every applicable site of 13 guaranteed-ill-typed fault kinds, sites and types taken from the checked AST; oracle: error located in the mutated module, compile_sources returns Err",
-   text="tests/ + std/ (one accepted program, 16 smallest modules quick / all thorough): at every applicable site one edit per fault kind - operand/condition replaced by a literal of another type, argument of a closed declared parameter type replaced, argument added/removed, explicit type argument added, variable / class / member / imported member / module replaced by a fresh name, required interface method deleted, int literal replaced by 2147483648 / 99999999999, one arm of a distinct-variant match deleted, a private function or class used from a new module. Each mutant must yield >=1 error located in the mutated module; the first mutant per (file, kind) additionally runs compile_sources on the whole program and must get Err without panic.",
+   technique="exhaustive enumeration of single-fault mutants: every applicable site of 13 guaranteed-ill-typed fault kinds (sites and types from the checked AST) plus every hint-dependent expression tree with a wrongly typed leaf up to a size bound; oracle: error located in the mutated module, compile_sources returns Err",
+   text="tests/ + std/ (one accepted program, 16 smallest modules quick / all thorough): at every applicable site one edit per fault kind - operand/condition replaced by a literal of another type, argument of a closed declared parameter type replaced, argument added/removed, explicit type argument added, variable / class / member / imported member / module replaced by a fresh name, required interface method deleted, int literal replaced by 2147483648 / 99999999999, one arm of a distinct-variant match deleted, a private function or class used from a new module. Each mutant must yield >=1 error located in the mutated module; the first mutant per (file, kind) additionally runs compile_sources on the whole program and must get Err without panic. Inference shapes: every expression tree with <=2 (quick) / <=3 (thorough; 4 in two contexts) internal nodes over {generic identity call, block, immediately applied lambda, if, match, two-argument generic call} and leaves {None, Some(1), Some(\"oops\")} with at least one wrongly typed leaf, in each of 6 contexts that fix the expected type (closed parameter, generic function with a closed parameter first/last, annotation, generic method of an instantiated class, lambda body): must be rejected; one compile per context must return Err.",
    note="Ill-typedness is by construction (expected type fixed by operator or declared closed parameter type). Bound violations not generated.",
    design_ref="DESIGN.md §5 C06")
 CHECKS["C16"] = dict(
    category="model_checking",
    technique="stateless exhaustive exploration: full product of import layouts x bodies x exporters x short edit histories on the real ServerState; proposed edits applied to the real text with LSP semantics, result re-parsed and re-checked",
-   text="6924 documents (0-3 existing imports in every order, `;` or not per import, newline/space/blank-line separators, line/block comments before/between/after the imports, leading blank lines, unresolved `Foo` in expression and/or annotation position, one or two exporting modules) x 2 (quick) / 4 (thorough) histories (fresh server, re-saved document, re-saved exporter, edited exporter then re-save): at every column of every `Foo` the auto-import quick fixes and the completion item's additional edits must have in-document, ordered, non-overlapping ranges; applying them must give a text without new syntax errors that imports Foo from the named module, no longer reports Foo unresolved, and is otherwise the same program.",
+   text="10668 documents (0-3 existing imports in every order, incl. stale imports of the unresolved class itself from a module that does not export it and from a module that does not exist, `;` or not per import, newline/space/blank-line separators, line/block comments before/between/after the imports, leading blank lines, unresolved `Foo` in expression and/or annotation position, one or two exporting modules) x 2 (quick) / 4 (thorough) histories (fresh server, re-saved document, re-saved exporter, edited exporter then re-save): at every column of every `Foo` the auto-import quick fixes and the completion item's additional edits must have in-document, ordered, non-overlapping ranges; applying them must give a text without new syntax errors that imports Foo from the named module, no longer reports Foo unresolved, and is otherwise the same program.",
    note="Whether a quick fix is offered at all is not asserted. The insert-without-separator defect after an import lacking `;` is a known finding pinned by the repository's own differ test.",
    design_ref="DESIGN.md §5 C16")
 CHECKS["C15"] = dict(
@@ -75,10 +75,10 @@ CHECKS["C15"] = dict(
 CHECKS["C13"] = dict(
    category="exploration",
    technique="exhaustive enumeration of rewrite instances (7 rewrite kinds x every applicable site) applied as text edits; oracle: same accept/reject verdict from the real checker, same behaviour under the reference semantics",
-   text="For corpus/bind/* and the tests/ modules (8 smallest quick / all thorough, each inside the whole tests+std program with a synthesised entry) and for rejected variants of them: every consistent rename of one local binding, every permutation (<=4) or adjacent transposition + reversal of toplevels and of class members, every expression wrapped in ( ) and in { }, every un-annotated let annotated with the inferred type, every inferred type-argument list made explicit, every movable class split into a new module with imports both ways. The verdict must not change; accepted runnable programs must print the same lines and end the same way under refsem.",
-   note="Rewrites are text edits at spans validated by C14; only bracket-balanced expression spans are wrapped; annotate/explicit-targs only where the type is closed and spellable. Rejected side is a small set of hand-mutated variants.",
+   text="For corpus/bind/* and the tests/ modules (8 smallest quick / all thorough, each inside the whole tests+std program with a synthesised entry) and for rejected variants of them: every consistent rename of one local binding, every permutation (<=4) or adjacent transposition + reversal of toplevels and of class members, every expression wrapped in ( ) and in { }, every un-annotated let annotated with the inferred type, every inferred type-argument list made explicit, every movable class split into a new module with imports both ways. Plus a generated spelling family: every hint-dependent expression tree with <=2 (quick) / <=3 (thorough) internal nodes over {generic identity call, block, applied lambda, if, match, two-argument generic call} and leaves {None, Some(1), a local} in 7 contexts (2541 runnable programs in the quick tier), each under every applicable rewrite instance; for programs the checker rejects, explicit type arguments are added only at sites whose inferred arguments are closed. The verdict must not change; accepted runnable programs must print the same lines and end the same way under refsem.",
+   note="Rewrites are text edits at spans validated by C14; only bracket-balanced expression spans are wrapped; annotate/explicit-targs only where the type is closed and spellable. Rejected side: hand-mutated variants plus the generated programs the checker rejects (e.g. under-constrained ones).",
    design_ref="DESIGN.md §5 C13")
-_FAM = "Families (bounded-exhaustive source-text generators): enum type shapes (all variant-kind lists <=3 for one class, all pairs of <=2 (quick) / <=3 (thorough) variant lists for two mutually referring classes in both declaration orders, generic instantiations; every constructor term to depth 2 shown directly, through a generic identity and through a generic struct); integer expressions of depth <=2 over + - * / % with literal and run-time operands over a 9-value alphabet incl. INT_MIN/INT_MAX (overflow and division by zero excluded by an exact evaluator); comparisons, short-circuit and operand order with side effects; closures (0-3 captures x nesting x this), method / function / builtin references, interface-bounded dispatch, call evaluation order; tail recursion with all 49 two-parameter update pairs and 8 three-parameter permutations, non-tail / mutual / method recursion; all Vec operation sequences of length <=3 (quick) / <=4 (thorough) over 11 ops for 5 element types (one program per possibly-panicking sequence); 12 string-literal content classes, fromInt/toInt over the alphabet, panics with 4 message classes; struct patterns in all 6 field orders with and without `as`, nested / or / if-let / tuple patterns."
+_FAM = "Families (bounded-exhaustive source-text generators): enum type shapes (all variant-kind lists <=3 over 6/7 payload kinds incl. a struct-class payload for one class, all pairs of <=2 (quick) / <=3 (thorough) variant lists for two mutually referring classes in both declaration orders, generic instantiations; every constructor term to depth 2 shown directly, through a generic identity, through a generic struct and wrapped in / absent from a generic option enum); integer expressions of depth <=2 over + - * / % with literal and run-time operands over a 9-value alphabet incl. INT_MIN/INT_MAX (overflow and division by zero excluded by an exact evaluator); comparisons, short-circuit and operand order with side effects; closures (0-3 captures x nesting x this), method / function / builtin references incl. references whose receiver is an otherwise unused parameter, interface-bounded dispatch, call evaluation order; lambdas in generic scopes (7 capture sets x 3 lambda-parameter kinds x body uses a generic type or not x generic class method / generic function x nested or not = 144 programs); tail recursion with all 49 two-parameter update pairs and 8 three-parameter permutations, non-tail / mutual / method recursion; all Vec operation sequences of length <=3 (quick) / <=4 (thorough) over 11 ops for 5 element types (one program per possibly-panicking sequence); 12 string-literal content classes as literals and as run-time-built strings (concatenation, comparison, Map keys), fromInt/toInt over the alphabet, panics with 4 message classes; struct patterns in all 6 field orders with and without `as`, nested / or / if-let / tuple patterns."
 CHECKS["C01"] = dict(
    category="exploration",
    technique="bounded-exhaustive enumeration of program families compiled by the real pipeline and executed on V8; oracle: reference interpreter of the checked source AST (specification semantics)",
@@ -106,14 +106,14 @@ CHECKS["C04"] = dict(
 CHECKS["C12"] = dict(
    category="exploration",
    technique="exhaustive enumeration of configurations (module-reference allocation orders x hash-map iteration orders x worker counts) on the real compile_sources, plus exhaustive interleaving exploration (loom) of the one shared atomic on the real samlang-heap source; sampled residual over internal hash seeds is labelled as such",
-   text="Three multi-module programs (accepted with cross-module recursive enums / generics / closures; rejected with errors in three modules; accepted with clashing class names and mutual imports): all n! allocation orders x all n! iteration orders of the source map with 1 and 16 workers, and worker counts 1..16 on two order pairs: identical verdict, byte-equal rendered diagnostics for the same allocation order (same multiset otherwise), and identical behaviour of every distinct emitted Wasm/TS artefact on node 22. The atomic temp-name counter shared by the parallel optimiser is model-checked with loom on the unmodified source (2 threads unbounded, 3 threads with preemption bound 3): every name ever handed out is distinct, also after sync_temp_counter.",
+   text="Four multi-module programs (accepted with cross-module recursive enums / generics / closures; rejected with errors in three modules; accepted with clashing class names and mutual imports; accepted with a recursive type knot reached from two modules' Main.main, where the enum layout decision depends on specialisation order): all n! allocation orders x all n! iteration orders of the source map with 1 and 16 workers, and worker counts 1..16 on two order pairs: identical verdict, byte-equal rendered diagnostics for the same allocation order (same multiset otherwise), and identical behaviour of every distinct emitted Wasm/TS artefact on node 22. The atomic temp-name counter shared by the parallel optimiser is model-checked with loom on the unmodified source (2 threads unbounded, 3 threads with preemption bound 3): every name ever handed out is distinct, also after sync_temp_counter.",
    note="Internal std HashMap seeds cannot be enumerated; they are varied on fresh threads (8 quick / 64 thorough runs per program) and reported separately. rayon itself is not loom-aware: the interleaving claim covers the shared counter, which the audit shows to be the only shared mutable state.",
    design_ref="DESIGN.md §5 C12")
 CHECKS["C18"] = dict(
    category="model_checking",
    technique="explicit-state BFS over collection values (tree shapes) of the real std sources executed by the reference interpreter, lock-step BTreeMap/BTreeSet/Vec model; discovery paths replayed as compiled driver programs on Wasm and TS (conformance)",
-   text="Map: BFS from Map.empty() over insert (2 values) / remove / update (3 functions) / filter (2 predicates) / map for keys {1,2,3} (quick) / {1..5} (thorough) and a wide key universe, states merged by full tree value; every state checked against a BTreeMap through the in-order contents and 20+ queries (get, containsKey, split per key, size, isEmpty, min/max(+Key), entries, keys, order-sensitive fold, forAll/exists/partition), all ordered pairs of the first 45/120 states through union, customizedUnion, merge, equal, compare. Set: every operation history of length <=3/4 over insert/remove/filter/map with union/intersection/diff/subset/disjoint/contains/fold/equal/fromList observations vs BTreeSet. List: every sequence of length <=3 through 14 operations vs Vec. Every BFS discovery path / history is also compiled by the real pipeline and run on Wasm and TS: output must equal the reference run's.",
-   note="refsem executes the std code (bound to tests/snapshot.txt); structural == mode. AVL shape facts are recorded, not asserted.",
+   text="Map: BFS from Map.empty() over insert (2 values) / remove / update (3 functions) / filter (2 predicates) / map for keys {1,2,3} (quick) / {1..5} (thorough) and a wide key universe, states merged by full tree value; every state checked against a BTreeMap through the in-order contents and 20+ queries (get, containsKey, split per key, size, isEmpty, min/max(+Key), entries, keys, order-sensitive fold, forAll/exists/partition), all ordered pairs of the first 45/120 states through union, customizedUnion, merge, equal, compare. A third, `deep` Map universe (keys 1..7 quick / 1..10 thorough, insert/remove only) is searched to its FIXPOINT: every AVL tree shape over every subset of the keys (28 901 trees for 10 keys). Set: the same explicit-state search to fixpoint over insert/remove for keys 1..6 / 1..9 (6 300 trees), every state checked against a BTreeSet through contents, balance, contains and split per key, size, isEmpty, min, max, elements, order-sensitive fold, iter (visit order through println), forAll/exists/filter/partition for 2 predicates, map with reversing/monotone/collapsing/identity functions, fromList in both orders; union, intersection, diff, subset, disjoint, equal, compare over all ordered pairs of 60/160 states spread over the space; plus every operation history of length <=3/4 over insert/remove/filter/map as compiled driver programs. List: every sequence of length <=3 through 14 operations vs Vec. Every BFS discovery path / history is also compiled by the real pipeline and run on Wasm and TS: output must equal the reference run's.",
+   note="refsem executes the std code (bound to tests/snapshot.txt); structural == mode. Sibling height difference <= 2 and stored heights are asserted for Set, recorded for Map.",
    design_ref="DESIGN.md §5 C18")
 NOT_YET = "check not built yet in this round (planned: see DESIGN.md §5)"
 
